@@ -207,6 +207,7 @@ def solve_one(ob, budget, confirm=None):
     (z3 5.1 returned an unsound `unsat` on a quantifier + sequence query during construction);
     confirm=2 asks for a second opinion on every VC (thorough tier) and records whether it came.
     A `sat` after an `unsat` (or vice versa) is a conflict: no verdict (checker fault)."""
+    budget = min(budget, ob["budget"]) if ob.get("budget") else budget
     order = ORDER.get(ob.get("theory", "int"), ORDER["int"])
     quantified = ("(forall " in ob["smt2"]) or ("(exists " in ob["smt2"])
     need_for = _need_for_factory(ob["smt2"])
